@@ -762,7 +762,7 @@ def var(a, axis=None, dtype=None, out=None, *args, **kwargs):
     )
     if getattr(out, "units", None) is not None:
         out.units = ret_units
-    return unyt_array(res, ret_units, bypass_validation=True)
+    return _wrap_out_result(res, ret_units)
 
 
 @implements(np.trace)
